@@ -110,6 +110,20 @@ impl<'a> Interpreter<'a> {
         }
     }
 
+    /// An interpreter for code nested inside `parent` (a macro body): it continues the
+    /// parent's call depth instead of starting a fresh budget.
+    pub fn nested_in(
+        parent: &Interpreter,
+        cel: &'a CelContext,
+        bindings: &'a BindContext,
+    ) -> Interpreter<'a> {
+        Interpreter {
+            cel: Some(cel),
+            bindings: Some(bindings),
+            depth: ScopedCounter::starting_at(parent.depth.count()),
+        }
+    }
+
     pub fn empty() -> Interpreter<'a> {
         Interpreter {
             cel: None,
